@@ -455,7 +455,7 @@ func TestValidate(t *testing.T) {
 			st.Configs++
 			if len(errs) == 0 {
 				st.Accepted++
-				roundTrips(tw, &st, dir, c, id, "atoms", tracefmt.Thorough())
+				roundTrips(tw, &st, dir, c, id, "atoms", false)
 			} else {
 				st.Rejected++
 			}
